@@ -836,9 +836,13 @@ impl<C: Ctxt> Ctxt for TraceparentCtxt<C> {
 
         let inner = self.inner.open_push(props);
 
+        // No new span in `props`: snapshot the traceparent that is active now, so the frame
+        // re-activates it wherever it is entered (as the inner frame does for its properties)
+        let slot = slot.or_else(get_active_traceparent);
+
         TraceparentCtxtFrame {
             inner,
-            active: slot.is_some(),
+            active: true,
             slot,
         }
     }
